@@ -45,6 +45,9 @@ func runC05(c *Ctx) {
 		}
 		checkOneSectionAndCallbackOutside(r, p, pkg, fd, "m")
 	}
+	for _, typ := range []string{"syncedKVMap", "mapDB", "batchedMutations"} {
+		checkAtomicOperations(r, p, "atomic/one-section-per-operation", pkg, typ)
+	}
 	// 4. closed only through atomic methods, realm write-once
 	checkFieldUseDiscipline(r, p, pkg, "mapDB")
 	checkFieldUseDiscipline(r, p, pkg, "batchedMutations")
@@ -224,4 +227,157 @@ func checkFieldUseDiscipline(r *Reporter, p *Prog, pkg, typ string) {
 	} else {
 		r.Pass("field/discipline", pkg+"."+typ, "-", fmt.Sprintf("%d uses of closed are atomic method calls or view sharing; %d uses of realm, none a write", nClosed, nRealm))
 	}
+}
+
+// checkAtomicOperations: every method of the given type is ONE atomic step on the state its own
+// mutex guards: the number of critical sections it opens on the receiver's own mutex - its own
+// acquisition sites plus calls of receiver methods that (transitively) acquire that mutex - is
+// at most one, and none of them sits in a loop. A scan under the read lock followed by a write
+// section, or a key snapshot followed by per-key locked reads, is not one step any more: writes
+// of other goroutines fall between the sections.
+func checkAtomicOperations(r *Reporter, p *Prog, rule, pkg, typ string) {
+	info := p.Pkg(pkg).TypesInfo
+	methods := p.Methods(pkg, typ)
+	type site struct {
+		pos    string
+		what   string
+		inLoop bool
+	}
+	ownAcq := map[string][]site{}   // method -> own acquisition sites
+	ownCalls := map[string][]site{} // method -> calls of receiver methods (callee name in what)
+	for _, fd := range methods {
+		if fd.Body == nil {
+			continue
+		}
+		recv := recvObj(info, fd)
+		if recv == nil {
+			continue
+		}
+		recvPath := fmt.Sprintf("%s@%d", recv.Name(), recv.Pos())
+		var walk func(n ast.Node, loop bool)
+		walk = func(n ast.Node, loop bool) {
+			ast.Inspect(n, func(c ast.Node) bool {
+				if c == nil || c == n {
+					return true
+				}
+				switch x := c.(type) {
+				case *ast.ForStmt:
+					walk(x, true)
+					return false
+				case *ast.RangeStmt:
+					walk(x, true)
+					return false
+				case *ast.CallExpr:
+					if op, path := lockOp(info, x); op == "Lock" || op == "RLock" {
+						if path == recvPath || len(path) > len(recvPath) && path[:len(recvPath)+1] == recvPath+"." && !containsDotAfter(path, len(recvPath)+1, info, x) {
+							ownAcq[fd.Name.Name] = append(ownAcq[fd.Name.Name], site{p.posStr(x.Pos()), op, loop})
+						}
+						return true
+					}
+					if se, ok := ast.Unparen(x.Fun).(*ast.SelectorExpr); ok {
+						if id, isId := ast.Unparen(se.X).(*ast.Ident); isId && info.Uses[id] == recv {
+							if sel := info.Selections[se]; sel != nil && sel.Kind() == types.MethodVal {
+								ownCalls[fd.Name.Name] = append(ownCalls[fd.Name.Name], site{p.posStr(x.Pos()), se.Sel.Name, loop})
+							}
+						}
+					}
+				}
+				return true
+			})
+		}
+		walk(fd.Body, false)
+	}
+	// methods that open a section on the receiver's mutex, transitively through own calls
+	locking := map[string]bool{}
+	for m, a := range ownAcq {
+		if len(a) > 0 {
+			locking[m] = true
+		}
+	}
+	for changed := true; changed; {
+		changed = false
+		for m, cs := range ownCalls {
+			if locking[m] {
+				continue
+			}
+			for _, c := range cs {
+				if locking[c.what] {
+					locking[m] = true
+					changed = true
+				}
+			}
+		}
+	}
+	n := 0
+	for _, fd := range methods {
+		if fd.Body == nil {
+			continue
+		}
+		m := fd.Name.Name
+		var sections []site
+		sections = append(sections, ownAcq[m]...)
+		for _, c := range ownCalls[m] {
+			if locking[c.what] {
+				sections = append(sections, site{c.pos, "call of self-locking " + c.what, c.inLoop})
+			}
+		}
+		if len(sections) == 0 {
+			continue
+		}
+		n++
+		key := funcKey(pkg, fd)
+		var desc []string
+		loop := false
+		for _, s := range sections {
+			desc = append(desc, s.pos+" "+s.what)
+			loop = loop || s.inLoop
+		}
+		switch {
+		case len(sections) > 1:
+			r.Fail(rule, key, p.posStr(fd.Pos()), fmt.Sprintf("%d critical sections on the receiver's mutex in one operation (%s): other goroutines' writes fall between them, the operation is not one atomic step", len(sections), joinStrings(desc, "; ")), desc...)
+		case loop:
+			r.Fail(rule, key, p.posStr(fd.Pos()), "the receiver's mutex is taken inside a loop ("+desc[0]+"): each iteration is its own critical section")
+		default:
+			r.Pass(rule, key, p.posStr(fd.Pos()), "one critical section: "+desc[0])
+		}
+	}
+	if n == 0 {
+		r.Fail(rule, pkg+"."+typ, "-", "no locking method found (row vacuous)")
+	}
+}
+
+// containsDotAfter reports whether a lock path below the receiver goes through a pointer/field
+// to ANOTHER object's mutex (recv.kvStore.RWMutex) rather than an embedded mutex of the receiver.
+func containsDotAfter(path string, from int, info *types.Info, call *ast.CallExpr) bool {
+	se, ok := call.Fun.(*ast.SelectorExpr)
+	if !ok {
+		return true
+	}
+	// recv.Lock() (embedded) or recv.mutex.Lock(): X is the receiver or one field selection deep
+	switch x := ast.Unparen(se.X).(type) {
+	case *ast.Ident:
+		return false
+	case *ast.SelectorExpr:
+		_, isId := ast.Unparen(x.X).(*ast.Ident)
+		if !isId {
+			return true
+		}
+		// a field of mutex type is the receiver's own mutex; a field of another struct type is another object
+		if t := info.TypeOf(x); t != nil && isMutexType(t) {
+			return false
+		}
+		return true
+	}
+	return true
+}
+
+func joinStrings(ss []string, sep string) string {
+	out := ""
+	for i, s := range ss {
+		if i > 0 {
+			out += sep
+		}
+		out += s
+	}
+	return out
 }
